@@ -48,6 +48,12 @@ ByteCases(zzdummy) ==
         mk(<<OptF(FALSE), MISSB, e>>, <<>>, <<>>, "arg", "missingfile", FALSE, FALSE, FALSE),
         mk(<<OptE(FALSE), MISSB>>, <<>>, i, "missingfile", "stdin", FALSE, FALSE, FALSE),
         mk(<<<<97, 255>>>>, <<>>, i, "arg", "stdin", FALSE, FALSE, TRUE),
+        \* bytes that are not text INSIDE a quoted token of the expression argument (nothing is replaced to make it text)
+        mk(<<<<39, 255, 39>>>>, <<>>, i, "arg", "stdin", FALSE, FALSE, TRUE),
+        mk(<<<<34, 99, 97, 102, 195, 34>>>>, <<>>, i, "arg", "stdin", FALSE, FALSE, TRUE),
+        mk(<<<<96, 34, 120, 128, 121, 34, 96>>>>, <<>>, i, "arg", "stdin", FALSE, FALSE, TRUE),
+        mk(<<OptU(FALSE), <<39, 97, 255, 98, 39>>>>, <<>>, i, "arg", "stdin", TRUE, FALSE, TRUE),
+        mk(<<OptAst, <<39, 192, 39>>>>, <<>>, <<>>, "arg", "stdin", FALSE, TRUE, TRUE),
         mk(<<OptAst, <<195, 40>>>>, <<>>, <<>>, "arg", "stdin", FALSE, TRUE, TRUE),
         mk(<<OptAst, OptE(FALSE), EFB>>, <<[name |-> EFB, content |-> e]>>, <<>>, "file", "stdin", FALSE, TRUE, FALSE),
         mk(<<OptU(FALSE), <<255>>>>, <<>>, i, "arg", "stdin", TRUE, FALSE, TRUE) >>
